@@ -81,6 +81,23 @@ def run_shard(spec):
     last = {}
     counter = [0]
 
+    # variable-role patterns of C03 (captured / mutated / rest parameters read, assigned, unused ...): the passes decide
+    # per variable whether it needs a box or a slot, so each pattern runs under every configuration
+    from . import c03_core_semantics as C03
+    for _ in range(40 if quick else 4000):
+        roles = [rng.choice(C03.ROLES) for _ in range(rng.choice([1, 2, 2, 3, 3, 4]))]
+        text = C03.capture_program(roles)
+        found, status = check_program(text, BUILDS_ALL)
+        if status == "discard":
+            res.excluded["reference_discarded"] += 1
+            continue
+        if status == "inconclusive":
+            res.inconclusive += 1
+            continue
+        res.case({"family": roles}, True, cls=["variable-roles", "builds:3"], sample=rng.random() < 0.01)
+        if found:
+            res.violation({"program": text}, "roles/" + found.signature, found.detail)
+
     def test(data):
         g = PG.Gen(E.HypChooser(data), max_depth=4, fold_bias=True)
         text = g.program()
